@@ -109,10 +109,15 @@ def check_target_CL(chk, MX):
     rng = chk.rng
     sd, ac, st, cs = gen_case(chk)
     CLt = round(rng.uniform(0.1, 0.7), 3)
-    given = {"elevator": round(rng.uniform(-3, 3), 2)} if rng.random() < 0.6 else {}
+    mode = chk.hist.get("target_CL_calls", 0) % 3
+    chk.count("target_CL_calls")
+    given = {"elevator": round(rng.uniform(-3, 3), 2)} if mode == 0 else {}
+    if mode != 0 and not any(abs(v) > 0.5 for v in cs.values() if isinstance(v, (int, float))):
+        cs = dict(cs, elevator=-6.0)             # controls deflected beforehand: "defaults to no deflections" must still hold
     sc = gen.build_scene(MX, sd, [("a", ac, st, cs)])
     try:
-        alpha = sc.target_CL(CL=CLt, control_state=copy.deepcopy(given), set_state=False, relaxation=rng.choice([1.0, 0.8]))
+        kw_cs = {"control_state": copy.deepcopy(given)} if mode != 2 else {}         # mode 2: argument left out altogether
+        alpha = sc.target_CL(CL=CLt, set_state=False, relaxation=rng.choice([1.0, 0.8]), **kw_cs)
     except Exception as e:
         if type(e).__name__ in ("MaxIterationError", "SolverNotConvergedError"):
             chk.count("not-trimmable=" + type(e).__name__)        # a raised error is not a returned trim: nothing to check
